@@ -2,6 +2,7 @@
    `tabeam_file` (model/EamTables.v) is compared byte for byte with writeTABEAM, writeTABEAMFinnisSinclair, the TABEAM
    tabulation classes and potable (DL_POLY_EAM, DL_POLY_EAM_fs).  The count expressions are REGENERATED from the source. *)
 From V Require Import lib.Common lib.Layout lib.Sorting gen.GridArith model.PairTables model.EamTables proof.LayoutLemmas proof.C05.
+From V Require Import model.NumFormat proof.NumFormatProofs.
 Local Open Scope Z_scope.
 
 (* number of blocks written = pair blocks (one per unordered element pair) + n embe + n (or n^2) dens *)
@@ -50,6 +51,16 @@ Theorem c05_rows_of_four : forall c1 c2 c3 c4 c5,
   rows_of_four [c1; c2; c3; c4; c5] 0 = [c1; sp; c2; sp; c3; sp; c4; nl; c5; nl].
 Proof. reflexivity. Qed.
 Print Assumptions c05_values.
+
+(* what the printed cells mean.  TABEAM values are printed with "%f" (six decimals): the text reads back as the value rounded to
+   six decimals, ties to even - within half a unit of the sixth decimal of the binary floating-point value the writer held *)
+Theorem c05_cell_text : forall neg m e t, (0 <= m)%Z -> fmt_float F_f neg m e = Some t ->
+  read_number t = Some (mkp neg (fixed_int 6 m e) 6 0).
+Proof. intros neg m e t Hm H. inversion H. apply (fmt_reads false 5 false 0 neg m e Hm). Qed.
+Theorem c05_cell_value : forall m e, (0 <= m)%Z -> let '(n, q) := frac m e in
+  (Z.abs (2 * fixed_int 6 m e * q - 2 * (n * 10 ^ 6)) <= q)%Z.
+Proof. exact (fixed_close 6). Qed.
+Print Assumptions c05_cell_text.
 
 Example c05_example :
   let els := [{| el_sp := 1; el_Z := 13; el_mass := 27; el_a0 := 0; el_lat := 5 |}; {| el_sp := 0; el_Z := 29; el_mass := 63; el_a0 := 0; el_lat := 5 |}] in
